@@ -9,17 +9,18 @@ import (
 
 // ALine is one line of emitted assembly.
 type ALine struct {
-	Label  string   // label definition (without colons) when non-empty
-	Global bool     // defined with "::"
-	Op     string   // instruction or directive name (tab-indented lines)
-	Args   []string // split at ", "
-	Rest   string   // everything after the op, verbatim
-	Raw    string   // the line, verbatim
-	Marker int      // line marker number when the line is "# N "file"" (else 0)
-	MFile  string
-	IsMark bool
-	Other  bool // a non-blank line that is neither label, instruction nor marker (raw text)
-	Num    int  // 0-based line index in the output
+	Label       string   // label definition (without colons) when non-empty
+	Global      bool     // defined with "::"
+	Op          string   // instruction or directive name (tab-indented lines)
+	Args        []string // split at ", "
+	Rest        string   // everything after the op, verbatim
+	Raw         string   // the line, verbatim
+	Marker      int      // line marker number when the line is "# N "file"" (else 0)
+	MFile       string
+	IsMark      bool
+	Other       bool // a non-blank line that is neither label, instruction nor marker (raw text)
+	Num         int  // 0-based line index in the output
+	BlankBefore bool // a blank line precedes this line
 }
 
 // Asm is parsed assembly output.
@@ -34,18 +35,25 @@ var labelRe = regexp.MustCompile(`^([^\s:"]+)(::?)$`)
 // ParseAsm splits the output into lines. It never fails: unknown shapes are "Other".
 func ParseAsm(text string) *Asm {
 	a := &Asm{Labels: map[string][]int{}}
+	blank := false
+	add := func(l ALine) {
+		l.BlankBefore = blank
+		blank = false
+		a.Lines = append(a.Lines, l)
+	}
 	for n, l := range strings.Split(text, "\n") {
 		if strings.TrimSpace(l) == "" {
+			blank = true
 			continue
 		}
 		if m := markerRe.FindStringSubmatch(l); m != nil {
 			k, _ := strconv.Atoi(m[1])
-			a.Lines = append(a.Lines, ALine{IsMark: true, Marker: k, MFile: m[2], Raw: l, Num: n})
+			add(ALine{IsMark: true, Marker: k, MFile: m[2], Raw: l, Num: n})
 			continue
 		}
 		if m := labelRe.FindStringSubmatch(l); m != nil {
 			a.Labels[m[1]] = append(a.Labels[m[1]], len(a.Lines))
-			a.Lines = append(a.Lines, ALine{Label: m[1], Global: m[2] == "::", Raw: l, Num: n})
+			add(ALine{Label: m[1], Global: m[2] == "::", Raw: l, Num: n})
 			continue
 		}
 		if strings.HasPrefix(l, "\t") {
@@ -58,10 +66,10 @@ func ParseAsm(text string) *Asm {
 			if rest != "" {
 				args = strings.Split(rest, ", ")
 			}
-			a.Lines = append(a.Lines, ALine{Op: op, Args: args, Rest: rest, Raw: l, Num: n})
+			add(ALine{Op: op, Args: args, Rest: rest, Raw: l, Num: n})
 			continue
 		}
-		a.Lines = append(a.Lines, ALine{Other: true, Raw: l, Num: n})
+		add(ALine{Other: true, Raw: l, Num: n})
 	}
 	return a
 }
